@@ -8,7 +8,7 @@ use crate::node::DynOp;
 use crate::type_token::Partition;
 use crate::validation::{ErrorCollector, Validate, ValidationError, ValidationMode};
 use std::marker::PhantomData;
-use std::sync::{Arc, Mutex};
+use std::sync::{Arc, Mutex, PoisonError};
 
 impl<T: RFBound + Validate> PCollection<T> {
     /// Validate elements in the collection using the provided validation mode.
@@ -28,7 +28,7 @@ impl<T: RFBound + Validate> PCollection<T> {
     /// use ironbeam::*;
     /// use ironbeam::validation::*;
     /// use serde::{Deserialize, Serialize};
-    /// use std::sync::{Arc, Mutex};
+    /// use std::sync::{Arc, Mutex, PoisonError};
     /// use anyhow::Result;
     ///
     /// #[derive(Clone, Serialize, Deserialize)]
@@ -173,7 +173,7 @@ impl<T: RFBound + Validate> DynOp for ValidateOp<T> {
                             if let Some(ref collector) = self.collector {
                                 collector
                                     .lock()
-                                    .unwrap()
+                                    .unwrap_or_else(PoisonError::into_inner)
                                     .add_error(Some(format!("record_{idx}")), errors);
                             }
                         }
@@ -289,7 +289,7 @@ impl<K: RFBound, V: RFBound + Validate> DynOp for ValidateValuesOp<K, V> {
                             if let Some(ref collector) = self.collector {
                                 collector
                                     .lock()
-                                    .unwrap()
+                                    .unwrap_or_else(PoisonError::into_inner)
                                     .add_error(Some(format!("pair_{idx}")), errors);
                             }
                         }
